@@ -37,6 +37,15 @@ def case_measure_ops(kind, R, D):
             for q in ("log_integral", "integral_light"):
                 a = np.asarray(m.regs[m.query(q, o.reg)])[w]; b = np.asarray(m.regs[m.query(q, os_)])
                 fail_if(fails, PROPERTY, q, "integral of the slice != slice of the integrals", b, a, params=params)
+            # per-component predicates are per component: is_normalized() of the slice is the slice of is_normalized()
+            try:
+                na = np.asarray(m.regs[o.reg].is_normalized()); nb = np.asarray(m.regs[os_].is_normalized())
+                if na.shape != (R,) or nb.shape != (len(w),) or not np.array_equal(nb, na[w]):
+                    fails.append(failure(PROPERTY, f"is_normalized:{kind}", f"is_normalized() of the slice != slice of is_normalized(): shapes {na.shape} / {nb.shape}", params=params))
+                if kind in ("pdf", "diagpdf") and not np.all(na):
+                    fails.append(failure(PROPERTY, f"is_normalized:{kind}", "a density reports that it is not normalised", params=params))
+            except Exception as e:
+                fails.append(failure(PROPERTY, f"is_normalized:{kind}", f"raised: {type(e).__name__}: {str(e)[:160]}", params=params))
             # slice AFTER the caches were filled
             os2 = m.slice(o.reg, idx)
             same_obj(fails, f"slice-after-query:{kind}", m.regs.get(os2), m.regs.get(os_), params)
